@@ -652,7 +652,7 @@ pub fn run_pools(ctx: &mut Ctx) {
 pub fn run_all(ctx: &mut Ctx) {
     install_abort_reporter_for(&ctx.root.clone(), true);
     ctx.rule = "(bytes_exhaustive) every byte string over the 24-byte alphabet { } [ ] , : \" \\ - + . 0 1 e E t r u n l SP LF 0xC3 0xA9 up to length 5 (quick) / 6 (thorough) under --on-error=ignore and up to length 4 / 5 under panic, stderr, stdout. (bytes) generated streams, alphabet soup, raw bytes and depth-64 values, mutated 0..5 times (truncate, bit flip, splice of a token fragment incl. broken UTF-8 and broken escapes, delete, duplicate, overwrite), <= 4 KiB, x 4 policies x 8 pipelines. (expressions) every signature of every function as root (stratified), depth <= 4, ill-typed arguments with probability 6/16, full Unicode strings incl. astral, boundary and huge numbers (allocation-size arguments bounded as the property says), in 7 option positions, on 1..3 generated inputs. (pools) every signature with literal arguments from the wide pools of C04.pools plus extreme numbers (2^64-1, -2^63, +-1e18, +-1e308, 2^31, 2^32-1) in every numeric position that does not decide an allocation. (directed) see the space description. Oracle: the run returns (Ok or Err), never a panic (catch_unwind), never an abort (SIGABRT reporter), never a hang (60 s watchdog + isolated re-run). non-trivial (bytes) = the input is not a clean stream of values and has >= 2 bytes; every expression case counts".into();
-    ctx.assumptions = vec!["release profile (no overflow checks), as users run it".into(), "sizes that decide an allocation (range N, sub length) are kept <= 10^4: resource exhaustion is outside the property".into()];
+    ctx.assumptions = vec!["optimised build of jawk with integer-overflow checks on (what `cargo build` and `cargo test` check, what a release build would silently wrap)".into(), "sizes that decide an allocation (range N, sub length) are kept <= 10^4: resource exhaustion is outside the property".into()];
     let (l_ignore, l_other) = ctx.tier.pick((5u32, 4u32), (6u32, 5u32));
     run_exhaustive(ctx, 0, l_ignore);
     for p in 1..4u8 {
